@@ -1,5 +1,6 @@
 import ComposeVerif.Spec.Interp
 import ComposeVerif.Model.InterpCustom
+import ComposeVerif.Model.InterpFloat
 /-!
 # C08 — statements the tree falsified before the repair `fix: integer and float interpolation casts read numbers
 # like YAML does` (pre-fix behaviour = `parseIntDecimal`, i.e. `strconv.Atoi` / `ParseInt(_, 10, 64)`)
@@ -23,7 +24,19 @@ theorem decimal_casters_reject_yaml_ints :
     parseIntDecimal "0x10".toList = none ∧ parseIntDecimal "0o17".toList = none ∧
     parseIntDecimal "0b11".toList = none ∧ parseIntDecimal "1_000".toList = none := by decide
 
-/-! ## still falsified by the tree: the self-decoding numeric types (recorded findings `typed:*:{devicecount,bytes,nanocpus}`)
+/-- the float casters before the round-5 repair (`strconv.ParseInt(plain, 0, 64)` first, not `ParseYAMLInt`): yaml.v3 reads
+    the plain literal `0b+1` as the integer 1 (its sign-after-prefix quirk, `yamlInt`), `toInt` read it since round 2, but
+    `toFloat` went on to `strconv.ParseFloat`, which rejects it — `cpu_percent: 0b+1` loaded, `${V}` with `0b+1` was a cast
+    error.  Repaired by c708a21 (`Props/C08Float.lean: literal_eq_variable_float`); replayed by corpus/C08/float-prefix-sign.json -/
+theorem float_casters_literal_eq_variable_false_before_repair :
+    ¬ (∀ (parse : String → Option String) (ofInt : Int → String) (s : String) (i : Int),
+        yamlInt s = some i → parseYAMLFloatOld parse ofInt s = some (ofInt i)) := by
+  intro h
+  have := h (fun _ => none) (fun i => ToString.toString i) "0b+1" 1 (by decide)
+  revert this
+  decide
+
+/-! ## still falsified by the tree: the self-decoding numeric types (recorded findings `typed:*:{devicecount,bytes}`; `nanocpus` repaired in round 5: `Props/C08.lean: nanocpus_reads_like_toFloat`)
 
 Replayed on the real code by `corpus/C08/custom-*.json`. -/
 
